@@ -90,10 +90,20 @@ func buildPools(r rng, n int) *apiPools {
 		for ci := range st.CashLetters {
 			for _, b := range st.CashLetters[ci].Bundles {
 				if b.BundleControl != nil {
-					b.BundleControl.BundleTotalAmount += 1
-					b.BundleControl.MICRValidTotalAmount += 2
-					b.BundleControl.BundleImagesCount += 1
-					b.BundleControl.UserField = "STALE"
+					// which members are stale varies: all of them, or only the ones a rebuild could skip when the
+					// item count, amount and image count already agree
+					switch r.Intn(4) {
+					case 0:
+						b.BundleControl.MICRValidTotalAmount += 2
+					case 1:
+						b.BundleControl.MICRValidTotalAmount = 0
+						b.BundleControl.CreditTotalIndicator = 1 - b.BundleControl.CreditTotalIndicator
+					default:
+						b.BundleControl.BundleTotalAmount += 1
+						b.BundleControl.MICRValidTotalAmount += 2
+						b.BundleControl.BundleImagesCount += 1
+						b.BundleControl.UserField = "STALE"
+					}
 				}
 			}
 			if c := st.CashLetters[ci].CashLetterControl; c != nil {
@@ -141,6 +151,17 @@ func buildPools(r rng, n int) *apiPools {
 			}
 			rb, _ := json.Marshal(m)
 			p.cashLts = append(p.cashLts, namedBytes{"raw-cashletter", rb, false})
+			// a cash letter posted without any control record (bundle controls and cash letter control absent): stored as
+			// posted, so the stored bundles hold nil control pointers
+			nb := editJSON(cb, func(path string, m map[string]any) {
+				delete(m, "bundleControl")
+				delete(m, "cashLetterControl")
+				if path == "" {
+					m["id"] = fmt.Sprintf("q%d-%d", k, ci)
+				}
+			})
+			p.clIDs = append(p.clIDs, fmt.Sprintf("q%d-%d", k, ci))
+			p.cashLts = append(p.cashLts, namedBytes{"cashletter-without-controls", nb, false})
 			// a cash letter whose addenda A leave the truncation indicator out (stored as posted)
 			tb := editJSON(cb, func(path string, m map[string]any) {
 				if _, ok := m["truncationIndicator"]; ok {
@@ -772,7 +793,7 @@ func runAPI(cfg *config, prop string) *Report {
 				}
 				reqs := []*apiReq{{Kind: "c1", Body: doc, CT: "application/json", Src: "clean"}}
 				reqs = append(reqs, reads()...)
-				for _, cb := range []*namedBytes{pick("valid-cashletter", hasRNS), pick("valid-cashletter", nil), pick("cashletter-blank-truncation", nil), pick("raw-cashletter", nil)} {
+				for _, cb := range []*namedBytes{pick("valid-cashletter", hasRNS), pick("valid-cashletter", nil), pick("cashletter-blank-truncation", nil), pick("raw-cashletter", nil), pick("cashletter-without-controls", nil)} {
 					if cb == nil {
 						continue
 					}
